@@ -564,3 +564,46 @@ func init() {
 		c.Check(nDeref >= 6, "rpc/core :: dereferences of loaded values found", "-", ">= 6", fmt.Sprintf("%d", nDeref))
 	})
 }
+
+// ------------------------------------------------------------------ C19.R9
+// Each indexer writes, for every item, entries under keys of its own (the tx indexer: the height entry
+// tx.height/<h>/... and the primary record found through tx.hash; the block indexer: block.height). Events
+// are indexed under "<type>.<attribute>"; an event that spells one of the indexer's own keys would be written
+// into that key space and searches by height / hash would return items that are not at that height (F46: the
+// block indexer refused its key, the tx indexer did not). Rule (sibling agreement): in both indexEvents the
+// write of an event entry is reached only where the composite key differs from every reserved key of that
+// indexer; the reserved keys are the constants the indexer's own writers and lookups use.
+func init() {
+	register("C19", "R9", "K1+K5", "an event is indexed only under a composite key that is none of the keys the indexer itself writes (tx.hash, tx.height / block.height)", 3, func(c *Ctx) {
+		w := c.W
+		for _, spec := range []struct {
+			pkg, fn  string
+			reserved []string
+		}{
+			{"state/txindex/kv", "TxIndex.indexEvents", []string{"TxHashKey", "TxHeightKey"}},
+			{"state/indexer/block/kv", "BlockerIndexer.indexEvents", []string{"BlockHeightKey"}},
+		} {
+			f := c.fn(spec.pkg, spec.fn)
+			if f == nil {
+				continue
+			}
+			fk := funcKey(f)
+			n := 0
+			for _, b := range f.Blocks {
+				for _, in := range b.Instrs {
+					call, ok := in.(*ssa.Call)
+					if !ok || !call.Call.IsInvoke() || call.Call.Method.Name() != "Set" {
+						continue
+					}
+					n++
+					for _, r := range spec.reserved {
+						val := c.mustConstString("types", r)
+						c.guards(f, call, fmt.Sprintf("%s :: write an event entry", fk), 0,
+							guardCmp("the composite key is not the reserved "+val, `fmt\.Sprintf\("%s\.%s", .*\)`, "!=", regexp.QuoteMeta(fmt.Sprintf("%q", val))))
+					}
+				}
+			}
+			c.Check(n == 1, fk+" :: event entry write found", w.pos(f.Pos()), "1 Set", fmt.Sprintf("%d", n))
+		}
+	})
+}
